@@ -457,6 +457,10 @@ func (x *Exec) applyContract(p *Path, site ssa.Instruction, fc *FuncContract, ca
 			}
 			s, err := post.EvalBool(c.E)
 			if err != nil {
+				if strings.Contains(err.Error(), "`strings` flag") {
+					// a string-level postcondition is not visible to a caller that treats strings as uninterpreted
+					continue
+				}
 				x.errorf("%s:%d: ensures at call: %v", c.File, c.Line, err)
 				continue
 			}
